@@ -288,6 +288,42 @@ def oracle_c07(abbr, cfg, meta, r):
     return 'expand did not return a string or a parse error: %r' % (r,)
 
 
+# abbreviations with a WRITTEN href value and what the opening tag must then hold (C03: values appear as written)
+WRITTEN = {'a[href=x]': ' href="x"', 'a[href={x}]': ' href={x}', 'a[href href=y]': ' href="y"', 'a[href=x]*': ' href="x"'}
+
+
+def simple_cfg(cfg):
+    """Only the PLAIN output options and markup.href: nothing that renames, re-quotes or reformats attributes."""
+    return set(cfg) <= {'text', 'options'} and set(cfg.get('options') or {}) <= set(PLAIN) | {'markup.href'}
+
+
+def plain_cfg(cfg):
+    o = cfg.get('options') or {}
+    return simple_cfg(cfg) and all(o.get(k) == v for k, v in PLAIN.items())
+
+
+def secondary_oracles(abbr, cfg, r):
+    """What the property statements next to markup.href say about an implementation result: C03 (a written value
+    appears as written), C04 (the whole text once, verbatim, in the deepest last element), and the option itself
+    (off = the text is not copied anywhere else).  None or a description."""
+    if r[0] != 'ok':
+        return None
+    out = r[1]
+    text = cfg.get('text')
+    if abbr in WRITTEN and simple_cfg(cfg) and WRITTEN[abbr] not in out:
+        return 'C03: the written href value is not in the output as written (%r expected in %r)' % (WRITTEN[abbr], out[:200])
+    if isinstance(text, str) and plain_cfg(cfg):
+        whole = text.strip()
+        if whole and not re.search(r'[\r\n]', whole):
+            if abbr in C04_SHAPES:
+                bad = oracle_c04(abbr, cfg, None, r)
+                if bad:
+                    return 'C04: ' + bad
+            if abbr in ('a', 'a[href]') and cfg['options'].get('markup.href') is False and out != '<a href="">%s</a>' % whole:
+                return 'markup.href is off but the output is %r, not <a href="">TEXT</a>' % out[:200]
+    return None
+
+
 def pipeline_cases(ctx):
     """-> list of (abbr, cfg, meta)"""
     quick = ctx.tier == 'quick'
@@ -352,23 +388,65 @@ def pipeline_cases(ctx):
 
 
 def run_pipeline(ctx, model):
+    from markup_util import impl_expand, enc_config, decode_expand, NotModelled
     cases = pipeline_cases(ctx)
-    for _, _, meta in cases:
-        ctx.cover('href:' + meta['tag'])
     n_href = 0
-    impl = run_cases(ctx, model, cases, 'href', oracle=oracle_c07, mode='expand')
-    for (abbr, cfg, meta), r in zip(cases, impl):
+    impl = []
+    wires, idx = [], []
+    for k, (abbr, cfg, meta) in enumerate(cases):
+        ctx.cover('href:' + meta['tag'])
+        r = impl_expand(abbr, cfg)
+        impl.append(r)
+        ctx.count_eval()
+        ctx.cover('href:%s' % (r[0] if r[0] != 'err' else 'err%d' % r[1]))
+        bad = oracle_c07(abbr, cfg, meta, r)
+        if bad:
+            ctx.property_failure('href:%s|%s' % (abbr, canon_cfg(cfg)), 'href expand(%r, %s): %s' % (abbr, canon_cfg(cfg), bad),
+                                 {'component': 'href', 'abbr': abbr, 'config': cfg, 'impl': repr(r)[:500], 'why': bad})
         if r[0] == 'ok':
             off = copy.deepcopy(cfg)
             off.setdefault('options', {})['markup.href'] = False
-            from markup_util import impl_expand
             if impl_expand(abbr, off) != r:
                 n_href += 1
                 ctx.nontrivial(('href-p', abbr, canon_cfg(cfg)))
-    ctx.cov['correspondence'].setdefault('markup_href', {})['cases_where_markup.href_changes_the_output'] = n_href
+        try:
+            wires.append([2] + enc_config(cfg) + enc_str(abbr))
+            idx.append(k)
+        except NotModelled:
+            ctx.cover('href:not-modelled')
+    dis = 0
+    for k, w in zip(idx, model.run(wires)):
+        abbr, cfg, meta = cases[k]
+        mo = decode_expand(w)
+        im = impl[k]
+        if im[0] == 'recursion' or mo == im:
+            continue
+        dis += 1
+        # a disagreement: look for a statement the implementation's result breaks, to report a concrete failing input
+        bad = secondary_oracles(abbr, cfg, im)
+        if dis <= 5:
+            ctx.say('DISAGREE href %r cfg=%s\n  impl  %r\n  model %r%s' % (abbr, canon_cfg(cfg), str(im)[:400], str(mo)[:400],
+                                                                      '\n  ' + bad if bad else ''))
+        if bad:
+            ctx.property_failure('href:%s|%s' % (abbr, canon_cfg(cfg)), 'href expand(%r, %s): %s' % (abbr, canon_cfg(cfg), bad),
+                                 {'component': 'href', 'abbr': abbr, 'config': cfg, 'impl': repr(im)[:500], 'why': bad})
+        elif dis <= 5:
+            ctx.broken.append({'kind': 'correspondence', 'file': 'markup-href', 'input': abbr, 'config': canon_cfg(cfg),
+                               'impl': repr(im)[:300], 'model': repr(mo)[:300]})
+    ctx.cov['correspondence']['markup_href(full expand output)'] = {
+        'cases': len(wires), 'disagreements': dis, 'cases_where_markup.href_changes_the_output': n_href}
     # callback events (text chunks with offset/line/column): the href value is a str and is pushed character by character
     ev = [c for k, c in enumerate(cases) if k % (5 if ctx.tier == 'quick' else 2) == 0]
     run_cases(ctx, model, ev, 'href-events', oracle=None, mode='events')
+
+
+def replay_href(rp):
+    from markup_util import impl_expand
+    abbr, cfg = rp['abbr'], rp.get('config') or {}
+    r = impl_expand(abbr, cfg)
+    bad = oracle_c07(abbr, cfg, None, r) or secondary_oracles(abbr, cfg, r)
+    print('href expand(%r, %s) -> %s : %s' % (abbr, canon_cfg(cfg), repr(r)[:300], bad or 'holds'))
+    return 1 if bad else 0
 
 
 def run_href(ctx, model):
